@@ -1,4 +1,4 @@
-import LyModel.Yin.LemmasStmt
+import LyModel.Yin.LemmasExt
 /-!
 # C10 — printed schemas re-parse to the same module: the YIN route, generic statement layer
 
@@ -105,6 +105,117 @@ theorem yin_leaf_stmt_roundtrip (fmt : Bool) (level flags : Nat) (k an s : Bytes
 example : stmtInfo [117, 110, 105, 116, 115] = some (some [110, 97, 109, 101], false) := by decide
 example : YangStr.isYangText [97, 60, 98, 32, 38, 10, 34, 99, 34] = true := by decide
 
+/-! ## statement trees of any depth
+
+`yinOk ns parent t` (`Yin/Ok.lean`, ONE decidable predicate, evaluated by the check on every generated tree) — for every statement of
+the tree: (1) a keyword statement is named by its keyword; (2) it has an argument iff the keyword takes one; (3) it is not a `value`
+directly under `error-message`; (4) an extension-keyword statement `prefix:name` carries no argument; (5) there is no YIN-attribute
+child; arguments are YANG text and extension prefixes are bound in `ns` to a namespace other than YIN's.  Each conjunct is needed:
+(1) `yin_stmt_roundtrip_fails_prefixed_kw`, (2) `yin_stmt_roundtrip_fails_noarg`, (3) `yin_stmt_roundtrip_fails_errmsg_value` (F340),
+(4) `yin_stmt_roundtrip_fails_F86`, (5) `yprp_stmt` prints nothing for a `LY_STMT_NONE` statement (`printStmt_attr_child`), and only
+the YIN parser creates them.  `norm t` is `t` with the quoting flag the YIN parser sets. -/
+
+def sDescription : Bytes := [100, 101, 115, 99, 114, 105, 112, 116, 105, 111, 110]   -- description
+def sUnits : Bytes := [117, 110, 105, 116, 115]   -- units
+
+/-- **`yin_stmt_roundtrip`.**  For EVERY statement tree `t` with `yinOk` — keywords of the generated table with attribute argument,
+    argument element (`text` / `value`) or no argument, prefixed extension keywords, children to any depth — at every level and
+    format: `yprp_stmt` prints `<indent><name` followed by `body`, and `yin_parse_element_generic`, entered behind the start-tag name
+    with the namespaces `ns` in scope (default namespace = YIN, all declared outside: `NsStable`), returns on `body ++ rest` the
+    tree `norm t` — names, keywords, arguments byte for byte, order — with the element closed, the element stack and the namespaces
+    as before and `rest` untouched.  Fuel: the length of the printed statement suffices; element depth within `LY_MAX_BLOCK_DEPTH`. -/
+theorem yin_stmt_roundtrip (ns : List XNs) (hnsY : nsGet ns none = some yinNsUri) (base : Nat) (hstab : NsStable base ns)
+    (t : YStmt) (parent : YKw) (fmt : Bool) (level : Nat) (hok : yinOk ns parent t = true) :
+    ∃ pfx n body, printStmt fmt level t = indentOf fmt level ++ 60 :: (qualName pfx n ++ body) ∧
+      ∀ (cx : XCtx) (E : List (Option Bytes × Bytes)) (rest : Bytes) (f : Nat),
+        cx.status = .element → cx.pfx = pfx → cx.name = n → cx.elems = (pfx, n) :: E → cx.ns = ns → base ≤ E.length →
+        cx.elems.length + heightG t ≤ LY_MAX_BLOCK_DEPTH → cx.inp = ignWs (body ++ rest) → (printStmt fmt level t).length ≤ f →
+        ∃ c', parseGeneric f parent cx = .ok (c', norm t) ∧ c'.inp = 10 :: rest ∧ c'.status = .elemClose ∧ c'.elems = E ∧ c'.ns = ns := by
+  obtain ⟨pfx, n, hn, hq, hmk⟩ := yinOk_match ns hnsY parent t hok
+  refine ⟨pfx, n, afterName fmt level t, by rw [printStmt_shape ns parent fmt level t hok, hn], ?_⟩
+  intro cx E rest f hst hpfx hname he hns hb hh hinp hf
+  have hc := costG_le ns fmt t parent level hok
+  exact genericOk ns hnsY base hstab t f parent cx pfx n E rest fmt level hst hpfx hname hn hq hmk he hns hinp hok (by omega) hh hb
+
+/-- non-vacuity: `container "c" { description "a<b"; input { g:x; } must "x > 1" { error-message "m"; } }` is `yinOk` under the
+    namespaces of a module element (default = YIN, `g` = `urn:ga`) -/
+example : yinOk [⟨some [103], [117, 114, 110, 58, 103, 97], 1⟩, ⟨none, yinNsUri, 1⟩] .ext
+    (.mk "container".toUTF8.toList (.kw "container".toUTF8.toList) (some [99]) 0
+      [.mk sDescription (.kw sDescription) (some [97, 60, 98]) 0 [],
+       .mk "input".toUTF8.toList (.kw "input".toUTF8.toList) none 0 [.mk [103, 58, 120] .ext none 0 []],
+       .mk "must".toUTF8.toList (.kw "must".toUTF8.toList) (some [120, 32, 62, 32, 49]) 0
+         [.mk sErrMsg (.kw sErrMsg) (some [109]) 0 []]]) = true := by decide +kernel
+
+/-- the namespaces of the module element are stable below it -/
+example : NsStable 1 [⟨some [103], [117, 114, 110, 58, 103, 97], 1⟩, ⟨none, yinNsUri, 1⟩] := by
+  intro m hm; simp [nsRm]; omega
+
+/-- **Corollary: text arguments with markup, quotes, line breaks, leading and trailing white space.**  `description` (argument
+    element) and `units` (attribute) with the argument ` <a & "b">\n\t'c' ` come back byte for byte. -/
+theorem yin_stmt_roundtrip_text (ns : List XNs) (hnsY : nsGet ns none = some yinNsUri) (base : Nat) (hstab : NsStable base ns)
+    (k : Bytes) (hk : k = sDescription ∨ k = sUnits) (parent : YKw) (fmt : Bool) (level : Nat) :
+    let s : Bytes := [32, 60, 97, 32, 38, 32, 34, 98, 34, 62, 10, 9, 39, 99, 39, 32]
+    ∃ pfx n body, printStmt fmt level (.mk k (.kw k) (some s) 0 []) = indentOf fmt level ++ 60 :: (qualName pfx n ++ body) ∧
+      ∀ (cx : XCtx) (E : List (Option Bytes × Bytes)) (rest : Bytes) (f : Nat),
+        cx.status = .element → cx.pfx = pfx → cx.name = n → cx.elems = (pfx, n) :: E → cx.ns = ns → base ≤ E.length →
+        cx.elems.length + 1 ≤ LY_MAX_BLOCK_DEPTH → cx.inp = ignWs (body ++ rest) → (printStmt fmt level (.mk k (.kw k) (some s) 0 [])).length ≤ f →
+        ∃ c', parseGeneric f parent cx = .ok (c', .mk k (.kw k) (some s) LYS_DOUBLEQUOTED []) ∧ c'.inp = 10 :: rest := by
+  intro s
+  have hok : yinOk ns parent (.mk k (.kw k) (some s) 0 []) = true := by
+    rcases hk with rfl | rfl
+    · have h1 : stmtInfo sDescription = some (some sText, true) := by decide +kernel
+      have h2 : YangStr.isYangText s = true := by decide +kernel
+      have h3 : (sDescription == sValue) = false := by decide +kernel
+      simp only [yinOk, h1, argTextOk, h2, yinOkList, h3]; simp
+    · have h1 : stmtInfo sUnits = some (some [110, 97, 109, 101], false) := by decide +kernel
+      have h2 : YangStr.isYangText s = true := by decide +kernel
+      have h3 : (sUnits == sValue) = false := by decide +kernel
+      simp only [yinOk, h1, argTextOk, h2, yinOkList, h3]; simp
+  obtain ⟨pfx, n, body, hp, hall⟩ := yin_stmt_roundtrip ns hnsY base hstab _ parent fmt level hok
+  refine ⟨pfx, n, body, hp, ?_⟩
+  intro cx E rest f a1 a2 a3 a4 a5 a6 a7 a8 a9
+  obtain ⟨c', r1, r2, _⟩ := hall cx E rest f a1 a2 a3 a4 a5 a6 (by simpa [heightG, heightK] using a7) a8 a9
+  exact ⟨c', by simpa [norm, normList] using r1, r2⟩
+
+/-- **`yin_ext_roundtrip`.**  For EVERY extension instance with `extOk` (`Yin/Ok.lean`: no nested instance in `ext->exts` — F86;
+    an argument iff the definition has one; a yin-element argument not white space only — F36; argument name an identifier other
+    than `xmlns`; no child flagged as YIN attribute / argument; every child `yinOk`) — without argument, with attribute argument,
+    or with the argument as child element `prefix:argname`; children to any depth — `yprp_extension_instance` prints
+    `<indent><prefix:name` followed by `body`, and `yin_parse_extension_instance`, entered behind the start-tag name, followed by
+    `lysp_ext_instance_resolve_argument` with the instance's definition, gives back the name, the argument byte for byte and — as
+    the substatements that are not YIN attribute / argument — exactly `normList kids`; the element is closed and `rest` untouched.
+    The fuel of `parseExtInst` (input length + 2) is shown sufficient inside.  `sameNs`: the verdict of the two `ly_resolve_prefix`
+    calls (the same prefix resolves to the same module). -/
+theorem yin_ext_roundtrip (ns : List XNs) (hnsY : nsGet ns none = some yinNsUri) (base : Nat) (hstab : NsStable base ns)
+    (sameNs : Bytes → Bytes → Bool) (hsame : ∀ p, sameNs p p = true) (fmt : Bool) (level : Nat)
+    (name : Bytes) (argname : Option Bytes) (ye : Bool) (argument : Option Bytes) (kids : List YStmt)
+    (hok : extOk ns (.mk name argname ye argument [] kids) = true) :
+    ∃ p n body, printExt fmt level false (.mk name argname ye argument [] kids) = indentOf fmt level ++ 60 :: (qualName (some p) n ++ body) ∧
+      ∀ (cx : XCtx) (E : List (Option Bytes × Bytes)) (rest : Bytes),
+        cx.status = .element → cx.pfx = some p → cx.name = n → cx.elems = (some p, n) :: E → cx.ns = ns → base ≤ E.length →
+        cx.elems.length + 1 + heightK kids ≤ LY_MAX_BLOCK_DEPTH → cx.inp = ignWs (body ++ rest) →
+        ∃ c' kids', parseExtInst cx = .ok (c', name, kids') ∧ c'.inp = 10 :: rest ∧ c'.status = .elemClose ∧ c'.elems = E ∧
+          ∃ kids'', resolveArgument sameNs name argname ye kids' = .ok (argument, kids'') ∧
+            kids''.filter (fun s => !isYinHidden s.flags) = normList kids := by
+  have hok' := hok
+  simp only [extOk, Bool.and_eq_true, List.isEmpty_nil, true_and] at hok'
+  obtain ⟨⟨⟨⟨⟨⟨hnameOk, _⟩, _⟩, han⟩, _⟩, hvis⟩, _⟩ := hok'
+  obtain ⟨p, n, hnm, hq, hbd⟩ := extName_parts ns name hnameOk
+  have hye : argname = none → ye = false := by intro h; subst h; simpa using han
+  refine ⟨p, n, extAfterName fmt level name argname ye argument kids, by rw [printExt_shape fmt level name argname ye argument kids hvis hye, hnm], ?_⟩
+  intro cx E rest hst hpfx hname he hns hb hh hinp
+  exact extInstOk ns hnsY base hstab sameNs hsame fmt level name argname ye argument kids hok cx p n E rest hnm hq hbd hst hpfx hname he hns
+    hb hh hinp
+
+/-- non-vacuity: `g:e2 "a <" { units "x"; }` with the argument as child element `g:t` is `extOk` -/
+example : extOk [⟨some [103], [117, 114, 110, 58, 103, 97], 1⟩, ⟨none, yinNsUri, 1⟩]
+    (.mk [103, 58, 101, 50] (some [116]) true (some [97, 32, 60]) [] [.mk sUnits (.kw sUnits) (some [120]) 0 []]) = true := by decide +kernel
+
+/-- conjunct (5): `yprp_stmt` prints nothing for a YIN-attribute child (`LY_STMT_NONE`), so it cannot come back -/
+theorem printStmt_attr_child (fmt : Bool) (level : Nat) (name : Bytes) (arg : Option Bytes) (fl : Nat) :
+    printStmt fmt level (.mk name .none arg fl []) = [] := by
+  simp [printStmt, printStmts]
+
 /-! ## where the round trip is false: the defects that are still in the code (replayed on libyang by the check) -/
 
 /-- the namespace declarations a module element carries, put on the start tag of a printed extension instance -/
@@ -171,22 +282,64 @@ theorem yin_stmt_roundtrip_fails_F86 :
   rw [e] at this
   simp [firstKidArg, YStmt.arg] at this
 
-/-- **F340 (new).**  A `value` statement directly under `error-message` (`g:e1 "x" { error-message "m" { value "1"; } }` — extension
+/-- **F340.**  A `value` statement directly under `error-message` (`g:e1 "x" { error-message "m" { value "1"; } }` — extension
     substatements are free-form) is printed as `<value value="1"/>` behind the argument element `<value>m</value>`;
     `yin_match_keyword` turns every `value` under `error-message` into the argument element (`LY_STMT_ARG_VALUE`), for which
-    `yin_parse_extension_instance_arg` has no case: `LOGINT`, the parse fails with `LY_EINT`. -/
-theorem yin_stmt_roundtrip_fails_errmsg_value :
+    `yin_parse_extension_instance_arg` has no case: `LOGINT`, the parse fails with `LY_EINT`.  Stated for the source as it is without
+    the repair `fixes/F340.diff` (`Generated.yinArgRemap`, read off `yin_parse_element_generic`, is `false`). -/
+theorem yin_stmt_roundtrip_fails_errmsg_value (hsrc : yinArgRemap = false) :
     ¬ ∀ (k : Bytes), stmtInfo k = some (some sValue, false) →
       ∃ r, roundtripExt (.mk sE1 (some [97]) false (some [120]) [] [.mk sErrMsg (.kw sErrMsg) (some [109]) 0 [.mk k (.kw k) (some [49]) 0 []]]) = .ok r := by
   intro h
   obtain ⟨r, e⟩ := h sValue (by decide)
-  have : isErr (roundtripExt (.mk sE1 (some [97]) false (some [120]) [] [.mk sErrMsg (.kw sErrMsg) (some [109]) 0 [.mk sValue (.kw sValue) (some [49]) 0 []]])) .eint = true := by
+  have : yinArgRemap = false → isErr (roundtripExt (.mk sE1 (some [97]) false (some [120]) [] [.mk sErrMsg (.kw sErrMsg) (some [109]) 0 [.mk sValue (.kw sValue) (some [49]) 0 []]])) .eint = true := by
     decide +kernel
+  have := this hsrc
   rw [e] at this
   simp [isErr] at this
+
+/-- the number of children the first substatement came back with -/
+def firstKidKids (r : Except YErr (Bytes × Option Bytes × List YStmt)) : Option Nat :=
+  match r with
+  | .ok (_, _, s :: _) => some s.children.length
+  | _ => none
+
+/-- **F340 repaired** (`fixes/F340.diff`: `yin_parse_element_generic` reads an element matched as `LY_STMT_ARG_VALUE` as the `value`
+    statement it is — the argument element was consumed with its parent): the witness comes back, `error-message "m"` with its one
+    child.  Vacuous on the unrepaired source; re-checked against the source on every run through `Generated.yinArgRemap`. -/
+theorem yin_stmt_roundtrip_errmsg_value_fixed (hsrc : yinArgRemap = true) :
+    firstKidArg (roundtripExt (.mk sE1 (some [97]) false (some [120]) [] [.mk sErrMsg (.kw sErrMsg) (some [109]) 0 [.mk sValue (.kw sValue) (some [49]) 0 []]])) = some (some [109]) ∧
+    firstKidKids (roundtripExt (.mk sE1 (some [97]) false (some [120]) [] [.mk sErrMsg (.kw sErrMsg) (some [109]) 0 [.mk sValue (.kw sValue) (some [49]) 0 []]])) = some 1 := by
+  revert hsrc
+  decide +kernel
 
 /-- under any other parent the same `value` statement comes back (non-vacuity of the exclusion) -/
 example : firstKidArg (roundtripExt (.mk sE1 (some [97]) false (some [120]) [] [.mk [98, 105, 116] (.kw [98, 105, 116]) (some [109]) 0 [.mk sValue (.kw sValue) (some [49]) 0 []]])) =
     some (some [109]) := by decide +kernel
+
+/-- conjunct (2) of `yinOk`: a keyword statement without the argument its keyword takes (`g:e1 "x" { leaf; }`, which the YANG parser
+    accepts among extension substatements) is printed as `<leaf name=""/>` and comes back with the EMPTY argument, not without one. -/
+theorem yin_stmt_roundtrip_fails_noarg :
+    ¬ ∀ (k : Bytes), stmtInfo k = some (some [110, 97, 109, 101], false) →
+      firstKidArg (roundtripExt (.mk sE1 (some [97]) false (some [120]) [] [.mk k (.kw k) none 0 []])) = some none := by
+  intro h
+  have e := h [108, 101, 97, 102] (by decide +kernel)
+  have : firstKidArg (roundtripExt (.mk sE1 (some [97]) false (some [120]) [] [.mk [108, 101, 97, 102] (.kw [108, 101, 97, 102]) none 0 []])) =
+      some (some []) := by decide +kernel
+  rw [this] at e
+  simp at e
+
+/-- conjunct (1) of `yinOk`: a keyword statement spelled with a prefix (`y:leaf`, which only the YIN parser produces, from an element
+    in the YIN namespace written with a prefix) is printed under that name; unless the enclosing module element happens to declare
+    the prefix, the element is in no namespace and the parse fails. -/
+theorem yin_stmt_roundtrip_fails_prefixed_kw :
+    ¬ ∀ (p : Bytes), isIdent p = true →
+      ∃ r, roundtripExt (.mk sE1 (some [97]) false (some [120]) [] [.mk (p ++ 58 :: [108, 101, 97, 102]) (.kw [108, 101, 97, 102]) (some [108]) 0 []]) = .ok r := by
+  intro h
+  obtain ⟨r, e⟩ := h [121] (by decide)
+  have : isErr (roundtripExt (.mk sE1 (some [97]) false (some [120]) [] [.mk ([121] ++ 58 :: [108, 101, 97, 102]) (.kw [108, 101, 97, 102]) (some [108]) 0 []])) .invalid = true := by
+    decide +kernel
+  rw [e] at this
+  simp [isErr] at this
 
 end LyModel.Props.C10Yin
